@@ -9,7 +9,7 @@ from __future__ import annotations
 import itertools
 
 from sa.harness import H, show
-from sa.ae import Seq, DictV, Obj, Unknown, Tok, IterV
+from sa.ae import Seq, DictV, Obj, Unknown, Tok, IterV, Raised
 from rules import common
 
 LEVEL = "exploration"
@@ -18,14 +18,20 @@ MAT_FN = "edgegraph.builder.adjmatrix.load_adj_matrix"
 LINKTYPES = ("DirectedEdge", "UnDirectedEdge", "SymTwo")
 
 
-def world(h, names):
+VCLASSES = ("Vertex", "SymFalsyVert", "Universe")      # plain; truth value False; universes named as vertices (a Universe is a Vertex)
+
+
+def world(h, names, vcls="Vertex"):
     """vertices with prior structure: P = DirectedEdge(first, last), universe W = [first, last]."""
     h.reset()
-    V = {n: h.new("Vertex", n) for n in names}
+    V = {n: h.new(vcls, n) for n in names}
     P = W = None
     if len(names) >= 2:
         P = h.new("DirectedEdge", "P", V[names[0]], V[names[-1]])
-        W = h.new("Universe", "W", vertices=Seq([V[names[0]], V[names[-1]]], "list"))
+        try:
+            W = h.new("Universe", "W", vertices=Seq([V[names[0]], V[names[-1]]], "list"))
+        except Raised:
+            W = None      # the prior universe cannot be built in this tree (C02 decides that); the builder is evaluated without it
     h.settle()
     return V, P, W
 
@@ -52,17 +58,22 @@ def run(ctx):
     n = 0
     # ---------------- load_adj_dict
     keysets = [("a",), ("a", "b")] + ([("a", "b", "c")] if ctx.thorough else [])
+    nrow = 0
     for keys in keysets:
         verts = list(keys) + ["e"]
         lists = [()] + [t for k in (1, 2) for t in itertools.product(verts, repeat=k)]
         if len(keys) == 3:
             lists = [()] + [t for k in (1, 2) for t in itertools.product(verts, repeat=k) if k == 1 or t[0] != t[1] or t[0] == "a"]
         for rows in itertools.product(lists, repeat=len(keys)):
-            for lt in (LINKTYPES if len(keys) < 3 else ("DirectedEdge",)):
-                if len(keys) == 2 and lt != "DirectedEdge" and (len(rows[0]) + len(rows[1])) > 3:
+            combos = [(lt, "Vertex") for lt in (LINKTYPES if len(keys) < 3 else ("DirectedEdge",))]
+            if len(keys) < 3:
+                nrow += 1
+                combos.append((LINKTYPES[nrow % 3], VCLASSES[1 + nrow % 2]))
+            for lt, vcls in combos:
+                if len(keys) == 2 and lt != "DirectedEdge" and (len(rows[0]) + len(rows[1])) > 3 and vcls == "Vertex":
                     continue
                 try:
-                    V, P, W = world(h, verts)
+                    V, P, W = world(h, verts, vcls)
                     one_shot = lt == "DirectedEdge" and (len(rows[0]) + len(keys)) % 2 == 0     # rows given as one-shot iterators (the docstring allows any iterable)
                     adj = DictV([[V[k], (IterV([V[x] for x in row]) if one_shot else Seq([V[x] for x in row], "list"))] for k, row in zip(keys, rows)])
                     pre = snapshot(V)
@@ -83,10 +94,10 @@ def run(ctx):
                         if x not in want_members:
                             want_members.append(x)
                 why = compare(out, V, want, want_members, h) or readback(h, V, want, lt) or prior_universe(W, verts)
-                res.ob(why is None, sig=("dict", keys, rows, lt), sample={"builder": "load_adj_dict", "adjacency": {k: list(r) for k, r in zip(keys, rows)}, "linktype": lt})
+                res.ob(why is None, sig=("dict", keys, rows, lt, vcls), sample={"builder": "load_adj_dict", "adjacency": {k: list(r) for k, r in zip(keys, rows)}, "linktype": lt})
                 if why:
-                    feats = ("rows-are-iterators," if one_shot else "") + f"empty-row={any(len(r) == 0 for r in rows)},self-entry={any(k in r for k, r in zip(keys, rows))},repeated-entry={any(len(set(r)) < len(r) for r in rows)},value-not-a-key={any('e' in r for r in rows)}"
-                    res.violation("BUILD-DICT", DICT_FN, feats, f"load_adj_dict({{{', '.join(k + ': ' + str(list(r)) for k, r in zip(keys, rows))}}}, {lt}): {why}", replay=replay_dict(keys, rows, lt))
+                    feats = ("rows-are-iterators," if one_shot else "") + (f"vertex-class={vcls}," if vcls != "Vertex" else "") + f"empty-row={any(len(r) == 0 for r in rows)},self-entry={any(k in r for k, r in zip(keys, rows))},repeated-entry={any(len(set(r)) < len(r) for r in rows)},value-not-a-key={any('e' in r for r in rows)}"
+                    res.violation("BUILD-DICT", DICT_FN, feats, f"load_adj_dict({{{', '.join(k + ': ' + str(list(r)) for k, r in zip(keys, rows))}}}, {lt}) on {vcls} objects: {why}", replay=replay_dict(keys, rows, lt))
     res.rule("BUILD-DICT", n)
     # ---------------- load_adj_matrix
     m = 0
@@ -98,9 +109,12 @@ def run(ctx):
         if size == 3:
             cells = [c for i, c in enumerate(cells) if i % 7 == 0 or sum(c) in (1, 8, 9)]
         for ci, cell in enumerate(cells):
-            for lt in (LINKTYPES if size <= 2 and ci % 3 == 0 else ("DirectedEdge",)):
+            combos = [(lt, "Vertex") for lt in (LINKTYPES if size <= 2 and ci % 3 == 0 else ("DirectedEdge",))]
+            if size <= 2 or ci % 5 == 0:
+                combos.append((LINKTYPES[ci % 3], VCLASSES[1 + ci % 2]))
+            for lt, vcls in combos:
                 try:
-                    V, P, W = world(h, names + ["e"])
+                    V, P, W = world(h, names + ["e"], vcls)
                     rows = [[(truthy[(ci + i + j) % len(truthy)] if cell[i * size + j] else (0 if (i + j) % 2 else None)) for j in range(size)] for i in range(size)]
                     kind = "tuple" if ci % 2 else "list"     # rows / side array given as tuples are as good as lists
                     mat = Seq([Seq(r, kind) for r in rows], kind)
@@ -122,9 +136,9 @@ def run(ctx):
                                 want[b]["links"].append((lt, (a, b)))
                 why = compare(out, V, want, list(names), h) or readback(h, V, want, lt)
                 why = why or prior_universe(W, names + ["e"])
-                res.ob(why is None, sig=("matrix", size, cell, lt), sample={"builder": "load_adj_matrix", "cells": [list(cell[i * size:(i + 1) * size]) for i in range(size)], "linktype": lt})
+                res.ob(why is None, sig=("matrix", size, cell, lt, vcls), sample={"builder": "load_adj_matrix", "cells": [list(cell[i * size:(i + 1) * size]) for i in range(size)], "linktype": lt})
                 if why:
-                    res.violation("BUILD-MATRIX", MAT_FN, f"size={size},diagonal={any(cell[i * size + i] for i in range(size))}", f"load_adj_matrix(size {size}, truthy cells {cell}, {lt}): {why}", replay=replay_mat(size, cell, lt))
+                    res.violation("BUILD-MATRIX", MAT_FN, f"size={size},diagonal={any(cell[i * size + i] for i in range(size))}" + (f",vertex-class={vcls}" if vcls != "Vertex" else ""), f"load_adj_matrix(size {size}, truthy cells {cell}, {lt}) on {vcls} objects: {why}", replay=replay_mat(size, cell, lt))
     # malformed shapes
     for size in (1, 2, 3):
         names = ["a", "b", "c"][:size]
